@@ -31,6 +31,7 @@ type Evaluator struct {
 	endRules       []*Rule
 	endFileRules   []*Rule
 	fuzzing        bool
+	nesting        int
 }
 
 var (
@@ -43,6 +44,11 @@ var (
 
 var fuzzingLoopLimit = 10000
 var callDepthLimit = 4096
+
+// limit on nested expression/statement evaluations (across all active calls),
+// so deeply nested code inside recursive functions ends in a runtime error
+// instead of overflowing the Go stack
+var evalNestingLimit = 200000
 
 func NewEvaluator(prog Program, lexer *Lexer, stdout io.Writer) Evaluator {
 	e := Evaluator{
@@ -211,6 +217,17 @@ func (e *Evaluator) evalString(str string) (*Cell, error) {
 }
 
 func (e *Evaluator) evalExpr(expr Expr) (*Cell, error) {
+	e.nesting++
+	if e.nesting > evalNestingLimit {
+		e.nesting--
+		return nil, e.error(expr.Token(), "evaluation nesting limit exceeded")
+	}
+	cell, err := e.evalExprNested(expr)
+	e.nesting--
+	return cell, err
+}
+
+func (e *Evaluator) evalExprNested(expr Expr) (*Cell, error) {
 	switch exp := expr.(type) {
 	case *ExprLiteral:
 		switch exp.token.Tag {
@@ -848,6 +865,21 @@ func (e *Evaluator) evalStatement(stmt Statement) error {
 	if err := e.verifStep(); err != nil {
 		return err
 	}
+	e.nesting++
+	if e.nesting > evalNestingLimit {
+		e.nesting--
+		var token Token
+		if ret, ok := stmt.(*StatementReturn); !ok || ret.Expr != nil {
+			token = stmt.Token()
+		}
+		return e.error(token, "evaluation nesting limit exceeded")
+	}
+	err := e.evalStatementNested(stmt)
+	e.nesting--
+	return err
+}
+
+func (e *Evaluator) evalStatementNested(stmt Statement) error {
 	switch st := stmt.(type) {
 	case *StatementBlock:
 		for _, s := range st.Body {
